@@ -226,7 +226,7 @@ pub fn run(ctx: &Ctx) -> PropResult {
             judge_dt_pair(rec, (a_day, tod), (b_day.clamp(cal::MIN_DAY + 2, cal::MAX_DAY - 2), tod), "dt/fresh-thread-first-pair");
         }
     }).fresh(1));
-    wls.push(Workload::cases("offset_local_twins", ctx.count(4_000, 150_000), |rec, _, rng| super::localzone::twin_pair_case(rec, rng, "C07")));
+    wls.push(Workload::cases("offset_local_twins", ctx.count(4_000, 40_000), |rec, _, rng| super::localzone::twin_pair_case(rec, rng, "C07")));
     wls.push(Workload::cases("far_apart_pairs", ctx.count(60_000, 1_000_000), |rec, idx, rng| {
         let b_day = rng.range_i64(cal::MIN_DAY + 2, cal::MAX_DAY - 2);
         let a_day = if idx % 2 == 0 { rng.range_i64(cal::MIN_DAY + 2, cal::MAX_DAY - 2) } else { (b_day + rng.range_i64(-200_000, 200_000)).clamp(cal::MIN_DAY + 2, cal::MAX_DAY - 2) };
